@@ -381,3 +381,266 @@ def governing_nodes(mod: Module, fn: ast.AST, ret: ast.AST, chain: tuple = (), s
             if i == 0 and stop is not None and t is stop:
                 break
             yield from walk(t, i, 6)
+
+
+# --------------------------------------------------------------------------- which method does a call go to (rule C06.d)
+#
+# "The call removes from X" is a fact about the callable the call expression evaluates to and about the object it is bound to,
+# not about the spelling `X.remove(...)`: `getattr(X, m)(...)` with m taken from a row of a constant table, `op = X.remove ...
+# op(...)`, `(X.add if adding else X.remove)(...)`, `operator.methodcaller("remove", t)(X)` are the same call.  The helpers
+# below compute, by def-use inside one function and through constant tables, (a) the set of strings an expression can denote,
+# (b) the (receiver, method names) pairs a callee expression can denote, (c) the expressions a receiver can evaluate to.
+
+_UNWRAP = ("tuple", "list", "iter", "reversed", "sorted", "frozenset", "set")
+
+
+def module_const(mod: Module, name: str) -> Optional[ast.expr]:
+    """The expression a module-level name is bound to, when it is bound exactly once at module level and never declared global."""
+    vals = [st.value for st in mod.tree.body if isinstance(st, ast.Assign) and any(isinstance(t, ast.Name) and t.id == name for t in st.targets)]
+    vals += [st.value for st in mod.tree.body if isinstance(st, ast.AnnAssign) and isinstance(st.target, ast.Name) and st.target.id == name and st.value is not None]
+    if len(vals) != 1 or any(isinstance(n, ast.Global) and name in n.names for n in ast.walk(mod.tree)):
+        return None
+    return vals[0]
+
+
+def _target_paths(target: ast.AST, path: tuple = ()) -> Iterator[tuple[str, tuple]]:
+    """(name, position path) for the names a for / assignment target binds: `for a, (b, c) in T` -> a:(0,), b:(1,0), c:(1,1)."""
+    if isinstance(target, ast.Name):
+        yield target.id, path
+    elif isinstance(target, (ast.Tuple, ast.List)) and not any(isinstance(e, ast.Starred) for e in target.elts):
+        for i, e in enumerate(target.elts):
+            yield from _target_paths(e, path + (i,))
+
+
+def _element_at(row: ast.AST, path: tuple) -> Optional[ast.AST]:
+    for i in path:
+        if not (isinstance(row, (ast.Tuple, ast.List)) and i < len(row.elts)) or any(isinstance(e, ast.Starred) for e in row.elts):
+            return None
+        row = row.elts[i]
+    return row
+
+
+class Flow:
+    """Def-use inside one function `fn` of module `mod`: every way a local name gets its value (assignments, annotated
+    assignments, walrus, the target of a `for` over a constant table).  A name with a binding that is not understood (a
+    parameter, a with/except target, an augmented assignment, a loop over something that is no constant table) is `opaque`."""
+
+    def __init__(self, mod: Module, fn: ast.AST):
+        self.mod, self.fn = mod, fn
+        self.defs = local_defs(fn)
+        self.params = set(params(fn)) | {a.arg for a in (fn.args.vararg, fn.args.kwarg) if a is not None}  # type: ignore[attr-defined]
+        self.loops: dict[str, list[tuple[ast.For, tuple]]] = {}
+        for n in own_nodes(fn, include_nested=True):
+            if isinstance(n, (ast.For, ast.AsyncFor)):
+                for name, path in _target_paths(n.target):
+                    self.loops.setdefault(name, []).append((n, path))
+        self._tuple_assign = {x.id for n in own_nodes(fn, include_nested=True) if isinstance(n, ast.Assign) for t in n.targets
+                              if not isinstance(t, ast.Name) for x in ast.walk(t) if isinstance(x, ast.Name)}
+
+    def is_local(self, name: str) -> bool:
+        return name in self.params or bool(binding_stmts(self.fn, name))
+
+    def rows(self, e: Optional[ast.AST], depth: int = 4) -> Optional[list[ast.AST]]:
+        """The members an iteration over e yields, when e denotes a constant collection: a tuple / list / set display, a dict
+        display (its keys; `.items()` -> (key, value) pairs, `.values()`, `.keys()`), tuple()/list()/reversed()/sorted()/iter() of
+        one, or a local / module-level name bound once to one.  None when e is not such a thing."""
+        if e is None or depth < 0:
+            return None
+        if isinstance(e, (ast.Tuple, ast.List, ast.Set)):
+            return None if any(isinstance(x, ast.Starred) for x in e.elts) else list(e.elts)
+        if isinstance(e, ast.Dict):
+            return None if any(k is None for k in e.keys) else list(e.keys)  # type: ignore[arg-type]
+        if isinstance(e, ast.Call) and isinstance(e.func, ast.Attribute) and e.func.attr in ("items", "values", "keys") and not e.args and not e.keywords:
+            d = self.table(e.func.value, depth - 1)
+            if isinstance(d, ast.Dict) and not any(k is None for k in d.keys):
+                if e.func.attr == "items":
+                    return [ast.Tuple(elts=[k, v], ctx=ast.Load()) for k, v in zip(d.keys, d.values)]  # type: ignore[list-item]
+                return list(d.values) if e.func.attr == "values" else list(d.keys)  # type: ignore[arg-type]
+            return None
+        if isinstance(e, ast.Call) and isinstance(e.func, ast.Name) and e.func.id in _UNWRAP and len(e.args) == 1 and not self.is_local(e.func.id):
+            return self.rows(e.args[0], depth - 1)
+        if isinstance(e, ast.Name):
+            t = self.table(e, depth)
+            return self.rows(t, depth - 1) if t is not None and t is not e else None
+        return None
+
+    def table(self, e: Optional[ast.AST], depth: int = 4) -> Optional[ast.AST]:
+        """The display (tuple / list / set / dict) e denotes: a display itself, or a name bound exactly once - locally or at module level - to one."""
+        if e is None or depth < 0:
+            return None
+        if isinstance(e, (ast.Tuple, ast.List, ast.Set, ast.Dict)):
+            return e
+        if isinstance(e, ast.Name):
+            if self.is_local(e.id):
+                if e.id in self.params or e.id in self.loops or e.id in self._tuple_assign:
+                    return None
+                vals = self.defs.get(e.id, [])
+                if len(vals) != 1 or len(binding_stmts(self.fn, e.id)) != 1:
+                    return None
+                return self.table(vals[0], depth - 1)
+            return self.table(module_const(self.mod, e.id), depth - 1)
+        return None
+
+    def sources(self, name: str) -> Optional[list[ast.AST]]:
+        """Every expression the local `name` can hold the value of; None when one of its bindings is not understood."""
+        if name in self.params or name in self._tuple_assign:
+            return None
+        out: list[ast.AST] = list(self.defs.get(name, []))
+        n_loops = 0
+        for loop, path in self.loops.get(name, []):
+            n_loops += 1
+            rows = self.rows(loop.iter)
+            if rows is None:
+                return None
+            for r in rows:
+                x = _element_at(r, path)
+                if x is None:
+                    return None
+                out.append(x)
+        # (every binding statement is one of the understood kinds: plain / annotated assignment, walrus, for)
+        for st in binding_stmts(self.fn, name):
+            if isinstance(st, (ast.AugAssign, ast.With, ast.AsyncWith)):
+                return None
+        if any(isinstance(h, ast.ExceptHandler) and h.name == name for h in own_nodes(self.fn, include_nested=True)):
+            return None
+        return out if out else None
+
+    def strings(self, e: Optional[ast.AST], depth: int = 5) -> Optional[set[str]]:
+        """The set of strings e can evaluate to (a superset, by def-use and constant tables); None when that cannot be told."""
+        if e is None or depth < 0:
+            return None
+        if isinstance(e, ast.Constant):
+            return {e.value} if isinstance(e.value, str) else set()
+        if isinstance(e, ast.IfExp):
+            return _union([self.strings(e.body, depth - 1), self.strings(e.orelse, depth - 1)])
+        if isinstance(e, ast.BoolOp):
+            return _union([self.strings(v, depth - 1) for v in e.values])
+        if isinstance(e, ast.NamedExpr):
+            return self.strings(e.value, depth - 1)
+        if isinstance(e, ast.Name):
+            if self.is_local(e.id):
+                src = self.sources(e.id)
+                return None if src is None else _union([self.strings(s, depth - 1) for s in src])
+            return self.strings(module_const(self.mod, e.id), depth - 1)
+        vals = self.looked_up(e)
+        return None if vals is None else _union([self.strings(v, depth - 1) for v in vals])
+
+    def looked_up(self, e: ast.AST) -> Optional[list[ast.AST]]:
+        """The members a lookup in a constant table can give: `T[k]` (see `selected`), `T.get(k)` (a member or None), `T.get(k, d)`
+        (a member or d).  None when e is no lookup in a constant table."""
+        if isinstance(e, ast.Subscript):
+            return self.selected(e)
+        if isinstance(e, ast.Call) and isinstance(e.func, ast.Attribute) and e.func.attr == "get" and 1 <= len(e.args) <= 2 and not e.keywords \
+                and isinstance(self.table(e.func.value), ast.Dict):
+            vals = self.selected(ast.Subscript(value=e.func.value, slice=e.args[0], ctx=ast.Load()))
+            if vals is not None:
+                return vals + [e.args[1] if len(e.args) == 2 else ast.Constant(value=None)]
+        return None
+
+    def selected(self, e: ast.Subscript) -> Optional[list[ast.AST]]:
+        """The members `T[k]` can select when T denotes a constant table: the one member for a constant k, every member otherwise."""
+        t = self.table(e.value)
+        if t is None:
+            return None
+        if isinstance(t, ast.Dict):
+            if any(k is None for k in t.keys):
+                return None
+            if isinstance(e.slice, ast.Constant):
+                hit = [v for k, v in zip(t.keys, t.values) if isinstance(k, ast.Constant) and k.value == e.slice.value and type(k.value) is type(e.slice.value)]
+                if hit and all(isinstance(k, ast.Constant) for k in t.keys):
+                    return hit[-1:]
+            return list(t.values)
+        if isinstance(t, (ast.Tuple, ast.List)):
+            if any(isinstance(x, ast.Starred) for x in t.elts) or isinstance(e.slice, ast.Slice):
+                return None
+            if isinstance(e.slice, ast.Constant) and isinstance(e.slice.value, int) and -len(t.elts) <= e.slice.value < len(t.elts):
+                return [t.elts[e.slice.value]]
+            return list(t.elts)
+        return None
+
+    def values(self, e: Optional[ast.AST], depth: int = 5, _seen: Optional[set] = None) -> list[ast.AST]:
+        """The expressions e can evaluate to, opened up as far as def-use goes: a local name stands for every expression it
+        can hold (all its definitions, whichever reaches), a conditional expression / `or` / `and` for its arms, a subscript of a
+        constant table for the members it can select.  What cannot be opened (a parameter, an attribute, a call) is its own value."""
+        _seen = set() if _seen is None else _seen
+        if e is None:
+            return []
+        if depth < 0 or id(e) in _seen:
+            return [e]
+        _seen.add(id(e))
+        if isinstance(e, ast.IfExp):
+            return self.values(e.body, depth - 1, _seen) + self.values(e.orelse, depth - 1, _seen)
+        if isinstance(e, ast.BoolOp):
+            return [x for v in e.values for x in self.values(v, depth - 1, _seen)]
+        if isinstance(e, ast.NamedExpr):
+            return self.values(e.value, depth - 1, _seen)
+        if isinstance(e, ast.Name):
+            src = self.sources(e.id) if self.is_local(e.id) else None
+            if src is None and not self.is_local(e.id):
+                c = module_const(self.mod, e.id)
+                src = [c] if c is not None else None
+            if src is None:
+                return [e]
+            return [x for s in src for x in self.values(s, depth - 1, _seen)]
+        vals = self.looked_up(e)
+        if vals is not None:
+            return [x for v in vals for x in self.values(v, depth - 1, _seen)]
+        return [e]
+
+    def bound_methods(self, func: Optional[ast.AST]) -> list[tuple[Optional[ast.AST], Optional[set[str]]]]:
+        """(receiver, method names) for every bound method the callee expression `func` can evaluate to: `R.m` -> (R, {m});
+        `getattr(R, n)` -> (R, strings(n)) - names None when they cannot be told; functools.partial(f, ...) -> those of f;
+        operator.methodcaller(n, ...) -> (None, strings(n)): the receiver is the argument of the call.  Names, conditional
+        expressions, table rows are opened with `values`.  A callee that is nothing of the kind contributes nothing."""
+        out: list[tuple[Optional[ast.AST], Optional[set[str]]]] = []
+        for v in self.values(func):
+            if isinstance(v, ast.Attribute):
+                out.append((v.value, {v.attr}))
+            elif isinstance(v, ast.Call) and isinstance(v.func, ast.Name) and v.func.id == "getattr" and len(v.args) >= 2 and not self.is_local("getattr"):
+                out.append((v.args[0], self.strings(v.args[1])))
+            elif isinstance(v, ast.Call) and norm(v.func).split(".")[-1] == "partial" and v.args:
+                out += self.bound_methods(v.args[0])
+            elif isinstance(v, ast.Call) and norm(v.func).split(".")[-1] == "methodcaller" and v.args:
+                out.append((None, self.strings(v.args[0])))
+        return out
+
+
+def _union(parts: list) -> Optional[set[str]]:
+    out: set[str] = set()
+    for p in parts:
+        if p is None:
+            return None
+        out |= p
+    return out
+
+
+def method_calls(mod: Module, fn: ast.AST, flow: Optional[Flow] = None) -> Iterator[tuple[ast.Call, ast.AST, Optional[set[str]]]]:
+    """(call, receiver, method names) for every call of fn whose callee can evaluate to a bound method, however it is spelled
+    (see Flow.bound_methods); names is None when the method is chosen by a string that cannot be told statically."""
+    flow = flow or Flow(mod, fn)
+    for c in own_nodes(fn, include_nested=True):
+        if not isinstance(c, ast.Call):
+            continue
+        for recv, names in flow.bound_methods(c.func):
+            if recv is None:  # operator.methodcaller(...)(<receiver>)
+                if len(c.args) != 1:
+                    continue
+                recv = c.args[0]
+            yield c, recv, names
+
+
+def returned_values(mod: Module, cls: Optional[str], call: ast.AST, depth: int = 2) -> Optional[list[tuple[ast.AST, Flow]]]:
+    """What a call that can only go to code of this module (`self.m(...)`, `f(...)`) gives back: the values of the return
+    statements of the callee (with the callee's Flow), calls it delegates to opened in turn.  None when the callee is not local."""
+    tgt = local_callee(mod, cls, call)
+    if tgt is None or depth < 0:
+        return None
+    callee = tgt[0]
+    fl = Flow(mod, callee)
+    out: list[tuple[ast.AST, Flow]] = []
+    for r in own_nodes(callee):
+        if isinstance(r, ast.Return) and r.value is not None:
+            for v in fl.values(r.value):
+                inner = returned_values(mod, cls, v, depth - 1) if isinstance(v, ast.Call) else None
+                out += inner if inner is not None else [(v, fl)]
+    return out
